@@ -173,6 +173,8 @@ func VH_C12b() {
 			break
 		}
 	}
+	vsym.Observe("decoded", out)
+	vsym.Observe("eof", err == io.EOF)
 	vsym.Assert(err == io.EOF, "C12b/ends-with-EOF")
 	vsym.Assert(len(out) == len(payload), "C12b/decoded-length")
 	if len(out) == len(payload) {
